@@ -10,7 +10,7 @@ def run(chk, replay=None):
     streams.note_distribution(chk, cases)
     chk.rule = ("grammar lines, arbitrary JSON lines and every value kind under every operator / wrapper x combinations of --redactNumbers / --redactBooleans / --redactIPs / --replacement "
                 "(replacement not e-mail-shaped; incl. empty, '$'-prefixed, quotes, non-ASCII); first-pass output fed back; non-trivial = distinct (flags, line) pairs whose first pass changed the line")
-    cfgs = [Cfg(), Cfg(nums=True, bools=True, ips=True), Cfg(repl='X"y\\<é', nums=True), Cfg(repl='', bools=True), Cfg(repl='$field', ips=True), Cfg(repl='1970-01-01T00:00:00.000Z'), Cfg(repl='000000000000000000000000', nums=True)]
+    cfgs = [Cfg(), Cfg(nums=True, bools=True, ips=True), Cfg(repl='X"y\\<é', nums=True), Cfg(repl='', bools=True), Cfg(repl='$field', ips=True), Cfg(repl='1970-01-01T00:00:00.000Z'), Cfg(repl='000000000000000000000000', nums=True), Cfg(repl='ma\u017fked@corp.example', nums=True), Cfg(repl='\u212aelvin@lab.io'), Cfg(repl='a,b', bools=True)]
     lines = [l for l, _ in cases]
     for ci, cfg in enumerate(cfgs):
         r1 = run_lines(cfg, lines)
